@@ -58,13 +58,16 @@ func c17bGen(rt *rapid.T) c17bCase {
 	}
 	n := rapid.IntRange(4, 45).Draw(rt, "nops")
 	next := 0 // next fresh message number
-	kinds := []string{"lpub", "rpub", "rpub", "hb", "hb", "hb", "ihave", "ihave", "ihave", "iwant", "iwant", "iwant", "idontwant", "idontwant", "deliver", "deliver", "adv"}
+	kinds := []string{"lpub", "fpub", "rpub", "rpub", "hb", "hb", "hb", "ihave", "ihave", "ihave", "iwant", "iwant", "iwant", "idontwant", "idontwant", "deliver", "deliver", "adv"}
 	for i := 0; i < n; i++ {
 		op := c17Op{Op: rapid.SampledFrom(kinds).Draw(rt, "op"), P: rapid.IntRange(1, np).Draw(rt, "p")}
 		switch op.Op {
-		case "lpub", "rpub":
+		case "lpub", "rpub", "fpub":
 			next++
 			op.IDs = []int{next}
+			if op.Op == "fpub" {
+				op.IDs = []int{5000 + next} // numbers no IHAVE / IWANT / IDONTWANT of the history refers to
+			}
 			op.Big = rapid.Bool().Draw(rt, "big")
 			op.Sz = rapid.IntRange(0, 1).Draw(rt, "sz")
 		case "ihave", "iwant", "idontwant":
@@ -164,6 +167,8 @@ func c17bRunInBubble(t *testing.T, c c17bCase, res *vfResult) {
 	defer n.close()
 	topic := vfTopic(0)
 	h, _ := n.ps.Join(topic)
+	topic1 := vfTopic(1) // never subscribed: publishing there goes through a fanout set
+	h1, _ := n.ps.Join(topic1)
 	sub, _ := h.Subscribe()
 	_ = sub
 	for i, p := range c.Peers {
@@ -172,6 +177,7 @@ func c17bRunInBubble(t *testing.T, c c17bCase, res *vfResult) {
 		}
 		n.addPeer(i+1, vfProto(p.Proto), 0, nil)
 		n.recv(i+1, vfSubRPC(topic, true))
+		n.recv(i+1, vfSubRPC(topic1, true))
 		if p.Mesh && !p.Direct && !p.Low && vfIsMesh(vfProto(p.Proto)) {
 			n.recv(i+1, vfGraftRPC(topic))
 		}
@@ -273,6 +279,21 @@ func c17bRunInBubble(t *testing.T, c c17bCase, res *vfResult) {
 		switch op.Op {
 		case "adv":
 			time.Sleep(time.Duration(op.N) * time.Millisecond)
+		case "fpub":
+			// a publication on the topic the node has not joined: fanout peers are in no mesh, nobody is told IDONTWANT
+			k := op.IDs[0]
+			if err := h1.Publish(n.ctx, []byte(c17Data(k, op.Big, op.Sz))); err != nil {
+				res.violate("C17/publish-error", step, "%v", err)
+				continue
+			}
+			n.settle()
+			sent := n.drain()
+			for _, w := range sent {
+				if w.RPC.Control != nil && len(w.RPC.Control.Idontwant) > 0 {
+					res.violate("C17/idontwant-to-non-mesh", step, "publishing message %d on a topic the node has not joined sent IDONTWANT to peer %d (a fanout peer is in no mesh)", k, w.To)
+				}
+			}
+			res.label("fanout-publish")
 		case "lpub":
 			k := op.IDs[0]
 			pre := mesh()
@@ -507,6 +528,9 @@ func c17bRunInBubble(t *testing.T, c c17bCase, res *vfResult) {
 						continue
 					}
 					for _, ih := range w.RPC.Control.Ihave {
+						if ih.GetTopicID() == topic1 {
+							continue // gossip of the fanout topic: its own window, not modelled here
+						}
 						nadv++
 						if len(ih.MessageIDs) > c.MaxIHaveLength {
 							res.violate("C17/ihave-too-long", step, "IHAVE to peer %d carries %d ids, MaxIHaveLength=%d", p, len(ih.MessageIDs), c.MaxIHaveLength)
